@@ -414,15 +414,14 @@ def run_coq_eval(name, imports, func, cases, shard=400, pre="", timeout=900):
         with open(fn, "w") as f:
             f.write(COQ_HEADER.format(imports=" ".join(imports)))
             f.write(pre + "\n")
-            f.write("Definition cases := " + coq(list(sh)) + ".\n")
-            f.write(f"Eval vm_compute in (List.map ({func}) cases).\n")
+            f.write(f"Eval vm_compute in (List.map ({func}) " + coq(list(sh)) + ").\n")
         files.append(fn)
 
     def work(fn):
         p = subprocess.run(["timeout", str(timeout), "coqc", "-noglob", "-Q", COQ, "Vicut", fn],
                            stdout=subprocess.PIPE, stderr=subprocess.STDOUT, text=True, cwd=CASES)
         if p.returncode != 0:
-            raise RuntimeError(f"coqc failed on {fn}:\n{p.stdout[-3000:]}")
+            raise RuntimeError(f"coqc failed on {fn}:\n{p.stdout[-1500:]}")
         m = re.search(r"^\s*= (.*?)\n\s*: ", p.stdout, re.S | re.M)
         if not m:
             raise RuntimeError(f"no result in coqc output of {fn}:\n{p.stdout[-2000:]}")
